@@ -159,7 +159,7 @@ def run(chk):
         f.variance_thresholds = np.array(thr)
         f.variances = np.array(mach.variances)
         return f
-    for j in range(14 if chk.tier == "quick" else 420):
+    for j in range(18 if chk.tier == "quick" else 450):
         C, D = r.choice([1, 2, 3]), r.choice([1, 2, 3])
         w, mu, var, s = gen.gen_gmm(r, C, D, "unit")
         m = make_gmm(w, mu, var, thr=1e-3 * float(s.min()) ** 2)
@@ -167,7 +167,8 @@ def run(chk):
         g = gen.nprng(r)
         ctxh = {"w": hexlist(w), "mu": hexlist(mu), "var": hexlist(var), "shape": [C, D], "X": hexlist(X)}
         _ = m.log_likelihood(X), m.acc_stats(X)               # whatever is cached is cached now
-        kind = ["load-other", "variances*=", "variances-row-edit", "means+=", "floors-raised-then-var*=", "other-component-count", "update-threshold-changed"][j % 7]
+        kind = ["load-other", "variances*=", "variances-row-edit", "means+=", "floors-raised-then-var*=", "other-component-count", "update-threshold-changed",
+                "other-dimension-variances-first", "fit-with-default-variances-under-a-floor-above-one"][j % 9]
         if kind == "load-other":
             w2, mu2, var2, s2 = gen.gen_gmm(r, C, D, "unit")
             other = make_gmm(w2, mu2 + 0.5 * s2, var2 * g.uniform(0.3, 3.0, size=(C, D)), thr=1e-3 * float(s2.min()) ** 2)
@@ -203,6 +204,24 @@ def run(chk):
                 m.set_params(mean_var_update_threshold=float(np.max(var)) * 2.0)
             else:
                 m.mean_var_update_threshold = float(np.max(var)) * 2.0
+            want = None
+        elif kind == "other-dimension-variances-first":
+            # re-parameterised for another feature dimension, the variances assigned before the means
+            D2 = D + 2
+            w2, mu2, var2, s2 = gen.gen_gmm(r, C, D2, "unit")
+            m.variance_thresholds = 1e-3
+            m.variances = var2
+            m.means = mu2
+            m.weights = w2
+            X = gen.sample_from(r, w2, mu2, var2, 6)
+            ctxh = dict(ctxh, X=hexlist(X), reparameterised_shape=[C, D2])
+            want = None
+        elif kind == "fit-with-default-variances-under-a-floor-above-one":
+            # means given, variances never assigned, a floor above 1: fit falls back to unit variances, which the floors must lift
+            m = GMMMachine(n_gaussians=C, weights=np.array(w), max_fitting_steps=1, convergence_threshold=None, update_means=True)
+            m.means = np.array(mu)
+            m.variance_thresholds = 2.5
+            m.fit(X)
             want = None
         else:
             m.variance_thresholds = float(np.median(np.asarray(m.variances)))
